@@ -152,3 +152,24 @@ def lemma_mul_pos(a, b):
 
 
 HINT_LEMMAS += [lemma_bitlen_mul, lemma_shr_bitlen, lemma_odd_mul, lemma_mul_pos]
+
+
+def lemma_even_mul(a, p):
+    """p even -> a*p even"""
+    return implies(p % 2 == 0, (a * p) % 2 == 0)
+
+
+HINT_LEMMAS += [lemma_even_mul]
+
+
+def lemma_mul_lt_r(a, b, p):
+    """p > 0, a < b -> a*p < b*p"""
+    return implies(p > 0 and a < b, a * p < b * p)
+
+
+def lemma_mul_le_r(a, b, p):
+    """p >= 0, a <= b -> a*p <= b*p"""
+    return implies(p >= 0 and a <= b, a * p <= b * p)
+
+
+HINT_LEMMAS += [lemma_mul_lt_r, lemma_mul_le_r]
